@@ -462,7 +462,7 @@ func combined(x *mon.Ctx) {
 				continue
 			}
 			for ki, s2k := range s2kinds {
-				if rel != "equal" && rel != "inverse" && rel != "generic" && ki > 1 {
+				if rel != "equal" && rel != "inverse" && rel != "generic" && ki > x.Scale(0, 1) {
 					continue
 				}
 				if rel == "generic" && !x.Thorough() && ki != 1 && ki != 3 {
@@ -488,8 +488,11 @@ func combined(x *mon.Ctx) {
 						s2 = bi(2)
 					case "n-1":
 						s2 = sub(ec.N, one)
-					case "random":
+					case "random": // uniform below n, or (half of the time) of a random bit length
 						s2 = c.R.BigBelow(ec.N)
+						if c.R.Bool() {
+							s2.Rsh(s2, uint(c.R.Intn(250)))
+						}
 					case "edge":
 						s2 = e.edges[c.R.Intn(len(e.edges))].v
 					case "long":
@@ -520,9 +523,16 @@ func combined(x *mon.Ctx) {
 					}
 					b1 := scalarBytes(s1, c.R.Intn(3), c.R)
 					b2 := scalarBytes(s2, c.R.Intn(3), c.R)
-					want := ec.Add(refBase(s1), q.mul(s2))
+					g1 := refBase(s1)
+					var g2 ec.Point
+					if s2.BitLen() <= 256 && (s2k == "2" || s2k == "1" || s2k == "n-1" || rel == "s2=n") {
+						g2 = q.mulSplit(s2, new(big.Int)) // recurring scalar: remembered per point
+					} else {
+						g2 = q.mul(s2)
+					}
+					want := ec.Add(g1, g2)
 					switch {
-					case rel == "inverse" && !want.Inf, rel == "equal" && !q.p.Inf && modN(s2).Sign() != 0 && !want.Equal(ec.Double(refBase(s1))):
+					case rel == "inverse" && !want.Inf, rel == "equal" && !g1.Equal(g2):
 						x.HarnessError("combined: constructed relation %s does not hold for P=%s s1=%x s2=%x", rel, q.name, s1, s2)
 					}
 					px, py := affine(q.p)
